@@ -1103,6 +1103,26 @@ example : real (fmtE 10 (Val.fin true 5 (-1)) ++ [',']) = some (Val.fin true 5 (
     fmtE 10 (Val.fin false 1801439850948199 (-54)) = fmtE 10 (Val.fin false 3602879701896397 (-55)) ∧
     isDouble (Val.fin false 3602879701896397 (-55)) = true := by decide
 
+open SharkVerif.Import.Export in
+/-- **C19, "up to the printed precision" made precise.**  The decimal `ds · 10^(ex-p)` that `%.<p>e` / `%.<p+1>g`
+print for the positive rational `n/d` (`(ds, ex) = sciDigits p n d`) has at most `p + 1` digits and differs from
+`n/d` by at most half a unit in the last printed place: with `e0 = decExp n d`, `|(n/d)·10^(p-e0) - ds·10^(ex-e0)| ≤ ½`
+(stated without division), `ex ∈ {e0, e0+1}`.  Together with `value_bytes_roundtrip_sci` / `_general`: the
+re-imported value is spirit's reading of the correctly rounded (`p+1`)-digit decimal of the original. -/
+theorem printed_decimal_is_nearest (p n d : Nat) (hd : 0 < d) :
+    (sciDigits p n d).1 < 10 ^ (p + 1) ∧
+    ((sciDigits p n d).2 = decExp n d ∨ (sciDigits p n d).2 = decExp n d + 1) ∧
+    2 * (((if (p : Int) - decExp n d ≥ 0 then n * 10 ^ ((p : Int) - decExp n d).toNat else n : Nat) : Int)
+          - ((sciDigits p n d).1 * 10 ^ ((sciDigits p n d).2 - decExp n d).toNat : Nat)
+            * ((if (p : Int) - decExp n d ≥ 0 then d else d * 10 ^ (-((p : Int) - decExp n d)).toNat : Nat) : Int)).natAbs
+      ≤ (if (p : Int) - decExp n d ≥ 0 then d else d * 10 ^ (-((p : Int) - decExp n d)).toNat) :=
+  ⟨sciDigits_lt p n d hd, (sciDigits_nearest p n d hd).1, (sciDigits_nearest p n d hd).2⟩
+
+open SharkVerif.Import.Export in
+/-- non-vacuity: 2/3 to 4 significant digits is 6667 · 10^-4 (rounded up), 1999.96 to 4 digits carries to 2.000e+03 -/
+example : sciDigits 3 2 3 = (6667, -1) ∧ decExp 2 3 = -1 ∧ sciDigits 3 199996 100 = (2000, 3) ∧
+    sciDigits 2 9996 1 = (100, 4) ∧ decExp 9996 1 = 3 := by decide
+
 /-! ## the hand-written LAST_COLUMN record loop terminates; the grammars as written in `Csv.cpp` -/
 
 open SharkVerif.Peg in
@@ -1153,6 +1173,69 @@ open SharkVerif.Peg in
 example : cleanReal (rowsSep ',') ≠ rowsSep ',' ∧
     phraseParse (cleanReal (rowsSep ',')) (csvSkipper '#') "1e309,7\n".toList = .fail ∧
     phraseParse (cleanReal (rowsSep ',')) (csvSkipper '#') "1e308,7\n".toList ≠ .fail := by decide
+
+open SharkVerif.Peg in
+/-- the three `csvStringToData` families with the grammar text of `Csv.cpp` (every `double_` replaced by
+`cleanNumber<double>()`), spelled out: reader with `cleanReal g`, then the same post-parse logic -/
+def importBytesAsWritten (bytes : List Char) (sep comment : Char) (labelFirst : Bool) (numOut maxB : Nat) :
+    Outcome Val × Outcome Val × Outcome Val :=
+  let rows := match phraseParse (cleanReal (if Csv.wsSep sep then rowsWs else rowsSep sep)) (csvSkipper comment) bytes with
+    | .ok [] evs => some ((Csv.splitMarks evs [] []).map Csv.valsOf)
+    | _ => none
+  let ptsFirst := match phraseParse (cleanReal (if Csv.wsSep sep then pointsFirstWs else pointsFirstSep sep)) (csvSkipper comment) bytes with
+    | .ok [] evs => some ((Csv.splitMarks evs [] []).map fun r => (Csv.labelOf r, Csv.valsOf r))
+    | _ => none
+  let ptsLast := Csv.readPointsLastLoop (cleanReal (if Csv.wsSep sep then pointLastWs else pointLastSep sep)) (csvSkipper comment)
+    (bytes.length + 1) bytes []
+  ((match rows with | none => .error | some r => Csv.importRows r maxB),
+   (match (if labelFirst then ptsFirst else ptsLast) with | none => .error | some p => Csv.importClass p maxB),
+   (match rows with | none => .error | some r => Csv.importRegr r labelFirst numOut maxB))
+
+open SharkVerif.Peg in
+theorem readPointsLastLoop_congr (g g' sk : G) (h : ∀ s, phraseParse g sk s = phraseParse g' sk s) :
+    ∀ (f : Nat) (s : List Char) (acc : List (Int × List Val)),
+      Csv.readPointsLastLoop g sk f s acc = Csv.readPointsLastLoop g' sk f s acc := by
+  intro f
+  induction f with
+  | zero => intro s acc; rfl
+  | succ f ih =>
+    intro s acc
+    simp only [Csv.readPointsLastLoop, h s]
+    cases phraseParse g' sk s with
+    | ok rest evs =>
+      simp only
+      split
+      · rfl
+      · split
+        · exact ih _ _
+        · rfl
+    | fail => rfl
+    | hang => rfl
+
+open SharkVerif.Peg in
+/-- **C19, first sentence, CSV importers with the repaired grammar text (`cleanNumber`), from bytes.**  The
+importers as written in `Csv.cpp` since 25239316 are the modelled importers — on every byte sequence, separator,
+comment character, label position, number of outputs and batch size — hence return a well-formed dataset or
+the library's exception. -/
+theorem import_bytes_wellformed_or_error_csv_as_written (bytes : List Char) (sep comment : Char) (labelFirst : Bool)
+    (numOut maxB : Nat) :
+    importBytesAsWritten bytes sep comment labelFirst numOut maxB =
+      (Csv.importRowsBytes bytes sep comment maxB, Csv.importClassBytes bytes labelFirst sep comment maxB,
+       Csv.importRegrBytes bytes labelFirst numOut sep comment maxB) ∧
+    Acceptable (importBytesAsWritten bytes sep comment labelFirst numOut maxB).1 maxB ∧
+    Acceptable (importBytesAsWritten bytes sep comment labelFirst numOut maxB).2.1 maxB ∧
+    Acceptable (importBytesAsWritten bytes sep comment labelFirst numOut maxB).2.2 maxB := by
+  have heq : importBytesAsWritten bytes sep comment labelFirst numOut maxB =
+      (Csv.importRowsBytes bytes sep comment maxB, Csv.importClassBytes bytes labelFirst sep comment maxB,
+       Csv.importRegrBytes bytes labelFirst numOut sep comment maxB) := by
+    unfold importBytesAsWritten Csv.importRowsBytes Csv.importClassBytes Csv.importRegrBytes Csv.readRows
+      Csv.readPointsFirst Csv.readPointsLast
+    simp only [Csv.phraseParse_cleanReal,
+      readPointsLastLoop_congr _ _ _ (fun s => Csv.phraseParse_cleanReal _ (csvSkipper comment) s)]
+    cases labelFirst <;> rfl
+  have h := import_bytes_wellformed_or_error_csv bytes sep comment labelFirst numOut maxB
+  rw [heq]
+  exact ⟨rfl, h.1, h.2.1, h.2.2⟩
 
 /-! ## the parsers never hang -/
 
